@@ -326,8 +326,33 @@ func mkCase(harness string, m sym.Model, choices map[string]int, inputs []interp
 
 // NativeReplay runs the cases against the natively compiled code in one go test process.
 func NativeReplay(opt *Options, pkgRel string, ov map[string][]byte, cases []NativeCase) ([]NativeOut, error) {
-	outs, _, err := nativeReplay(opt, pkgRel, ov, cases, false)
-	return outs, err
+	outs, text, err := nativeReplay(opt, pkgRel, ov, cases, false)
+	if err == nil {
+		return outs, nil
+	}
+	if !strings.Contains(text, "panic:") && !strings.Contains(text, "fatal error:") {
+		return nil, err
+	}
+	// the test binary died (a panic in a goroutine cannot be recovered by the harness): find the case(s) that kill it
+	if len(cases) == 1 {
+		msg := "process crashed"
+		for _, l := range strings.Split(text, "\n") {
+			if strings.HasPrefix(l, "panic:") || strings.HasPrefix(l, "fatal error:") {
+				msg = l
+				break
+			}
+		}
+		return []NativeOut{{Outcome: "panic", Panic: msg}}, nil
+	}
+	outs = make([]NativeOut, len(cases))
+	for i := range cases {
+		o, err := NativeReplay(opt, pkgRel, ov, cases[i:i+1])
+		if err != nil {
+			return nil, err
+		}
+		outs[i] = o[0]
+	}
+	return outs, nil
 }
 
 // NativeReplayRace replays cases under the Go race detector and reports whether it fired.
